@@ -68,6 +68,9 @@ func c14Arg(t string, i int) string {
 	return []string{`"b"`, "1", "true"}[i%3]
 }
 
+// c14ArgS: the text held by the field `argS` of the conforming data
+var c14ArgS = "b"
+
 type c14Call struct {
 	N string `json:"n"`
 	K int    `json:"k"`
@@ -171,7 +174,8 @@ func genC14(c *Ctx) {
 	unknown := 0
 	run := func(rc c14Recv, calls []c14Call, cls string, conformant bool) {
 		root := &CTy{T: "struct", F: []*CField{{N: "input", M: "reg", Ty: &CTy{T: "struct", F: []*CField{
-			{N: "recv", M: "reg", Ty: rc.ty}, {N: "_dependencies", M: "reg", H: 1, Ty: &CTy{T: "deplist", V: []string{}}}}}}}}
+			{N: "recv", M: "reg", Ty: rc.ty}, {N: "argS", M: "reg", Ty: &CTy{T: "string"}}, {N: "argN", M: "reg", Ty: &CTy{T: "number"}}, {N: "argB", M: "reg", Ty: &CTy{T: "bool"}},
+			{N: "_dependencies", M: "reg", H: 1, Ty: &CTy{T: "deplist", V: []string{}}}}}}}}
 		g := &cueGen{}
 		txt := cueSchemaText(g, root)
 		q := "$.input.recv"
@@ -268,7 +272,8 @@ func genC14(c *Ctx) {
 			return
 		}
 		// evaluate on conforming data
-		data := tvMap("str", [][2]any{{hx("input"), tvMap("str", [][2]any{{hx("recv"), rc.data}})}})
+		// argS: a text that conforms to `string` and happens to read as a number (arguments given as paths resolve to it)
+		data := tvMap("str", [][2]any{{hx("input"), tvMap("str", [][2]any{{hx("recv"), rc.data}, {hx("argS"), tvStr(c14ArgS)}, {hx("argN"), tvF64(1)}, {hx("argB"), tvBool(true)}})}})
 		out := runCase(q, buildAny(data))
 		c.Extra["evaluated"] = asInt(c.Extra["evaluated"]) + 1
 		switch out.Class {
@@ -306,6 +311,21 @@ func genC14(c *Ctx) {
 			}
 		}
 	}
+	// the same argument lists with every literal given as a path to a field of that kind
+	asPaths := func(args []string) []string {
+		var out []string
+		for _, a := range args {
+			switch {
+			case strings.HasPrefix(a, `"`):
+				out = append(out, "$.input.argS")
+			case a == "true" || a == "false":
+				out = append(out, "$.input.argB")
+			default:
+				out = append(out, "$.input.argN")
+			}
+		}
+		return out
+	}
 	mkCall := func(name string, args []string) c14Call {
 		return c14Call{N: name, K: len(args), q: name + "(" + strings.Join(args, ",") + ")"}
 	}
@@ -315,6 +335,13 @@ func genC14(c *Ctx) {
 		for _, rc := range recvs {
 			for _, args := range conf {
 				run(rc, []c14Call{mkCall(fn, args)}, "single/conformant", true)
+				if len(args) > 0 && fn != "Select" && fn != "Sprintf" && !strings.Contains(fn, "Regex") {
+					for _, as := range []string{"12", "b"} {
+						c14ArgS = as
+						run(rc, []c14Call{mkCall(fn, asPaths(args))}, "single/conformant/arguments-as-paths", true)
+					}
+					c14ArgS = "b"
+				}
 			}
 			if over != nil {
 				run(rc, []c14Call{mkCall(fn, over)}, "single/over-long", false)
